@@ -8,6 +8,7 @@
 (*    4 = the token is not terminated (string / comment / url( / custom       *)
 (*        property value running into the end of the output or, for a string, *)
 (*        into a raw line break)                                              *)
+(*    8 = (comment) it is a preserved comment  /*! ... */                      *)
 (* The observer (engines/csstok.py) only splits bytes into these classes; it  *)
 (* decides nothing.  The property's clauses are the acceptance condition:     *)
 (*   F1  the output is empty or ends with exactly one newline;                *)
@@ -18,7 +19,8 @@
 (*       style (the design's reading: the marker is there exactly when it is  *)
 (*       needed);                                                             *)
 (*   F4  compressed: no line break other than the final one, outside custom-  *)
-(*       property values;                                                     *)
+(*       property values (and inside a preserved comment /*! .. */, whose text *)
+(*       is the author's and is copied verbatim wherever a style keeps it);    *)
 (*   F5  the bytes are UTF-8 and every string/comment/url( is terminated      *)
 (*       (otherwise "outside strings" has no meaning).                        *)
 EXTENDS Integers, Sequences
@@ -31,6 +33,7 @@ Styles == {"expanded", "compressed"}
 HasNA(t) == t.f % 2 = 1
 HasNL(t) == (t.f \div 2) % 2 = 1
 Unterm(t) == (t.f \div 4) % 2 = 1
+Loud(t) == (t.f \div 8) % 2 = 1
 
 Tok(c, f) == [c |-> c, f |-> f]
 
@@ -97,7 +100,7 @@ StepD(s, t, Dev) ==
          ELSE [s1 EXCEPT !.stack = SubSeq(s.stack, 1, Len(s.stack) - 1)]
     ELSE IF c \in {"string", "comment", "url", "customprop_value"} THEN
          IF Unterm(t) THEN [s1 EXCEPT !.bad = "unterminated"]
-         ELSE IF c \in {"string", "comment", "url"} /\ HasNL(t) THEN [s1 EXCEPT !.innl = 1]
+         ELSE IF c \in {"string", "comment", "url"} /\ HasNL(t) /\ ~(c = "comment" /\ Loud(t)) THEN [s1 EXCEPT !.innl = 1]
          ELSE s1
     ELSE s1     \* "other", "nonascii" (flag 1 set by the observer), "semicolon", "at_keyword"
 
